@@ -175,6 +175,11 @@ func (p Params) Validate() error {
 		return errorsmod.Wrap(sdkerrors.ErrInvalidRequest, "verified removal period must be positive")
 	}
 
+	for _, coin := range append(append(sdk.Coins{}, p.PublishDataCollateral...), p.SubmitInvalidityCollateral...) {
+		if coin.Amount.IsNil() {
+			return errorsmod.Wrap(sdkerrors.ErrInvalidRequest, "collateral amount must be set")
+		}
+	}
 	if !p.PublishDataCollateral.IsValid() {
 		return errorsmod.Wrap(sdkerrors.ErrInvalidRequest, "publish data collateral must be valid")
 	}
